@@ -383,7 +383,7 @@ func (c cfgSub) reify(opts *options) (interface{}, error) {
 			opts.activeFields = newFieldSet(parentFields)
 			var err error
 			if m[k], err = v.reify(opts); err != nil {
-				return nil, err
+				return nil, reifyElemErr(v, err)
 			}
 		}
 		return m, nil
@@ -393,7 +393,7 @@ func (c cfgSub) reify(opts *options) (interface{}, error) {
 			opts.activeFields = newFieldSet(parentFields)
 			var err error
 			if m[i], err = v.reify(opts); err != nil {
-				return nil, err
+				return nil, reifyElemErr(v, err)
 			}
 		}
 		return m, nil
@@ -403,7 +403,7 @@ func (c cfgSub) reify(opts *options) (interface{}, error) {
 			opts.activeFields = newFieldSet(parentFields)
 			var err error
 			if m[k], err = v.reify(opts); err != nil {
-				return nil, err
+				return nil, reifyElemErr(v, err)
 			}
 		}
 		for i, v := range arr {
@@ -411,11 +411,21 @@ func (c cfgSub) reify(opts *options) (interface{}, error) {
 			var err error
 			m[fmt.Sprintf("%d", i)], err = v.reify(opts)
 			if err != nil {
-				return nil, err
+				return nil, reifyElemErr(v, err)
 			}
 		}
 		return m, nil
 	}
+}
+
+// reifyElemErr names the entry v of a list or dictionary as the setting that
+// failed to reify, unless the error already names a setting further down.
+func reifyElemErr(v value, err error) error {
+	if _, ok := err.(Error); ok {
+		return err
+	}
+	ctx := v.Context()
+	return raisePathErr(err, v.meta(), "", ctx.path("."))
 }
 
 func (d *cfgDynamic) typ(opts *options) (ti typeInfo, err error) {
